@@ -1089,6 +1089,17 @@ func (ce *CEnv) evalCall(n *ast.CallExpr) (Val, error) {
 				return Val{}, err
 			}
 			return Val{T: intT, C: []*Term{bigSign(ce.st, a.C[0])}}, nil
+		case "curvebytes":
+			// byte length of the group order of an elliptic.Curve value (uninterpreted; tied to
+			// Curve.Params().N by the assumed contract of that method)
+			a, err := ce.eval(n.Args[0])
+			if err != nil {
+				return Val{}, err
+			}
+			if len(a.C) != 2 {
+				return Val{}, fmt.Errorf("curvebytes of a non-interface value")
+			}
+			return Val{T: intT, C: []*Term{UF("curvebytes", BV64, a.C[0], a.C[1])}}, nil
 		case "bigmag":
 			a, err := ce.eval(n.Args[0])
 			if err != nil {
